@@ -91,6 +91,8 @@ PROPERTIES.update({
         "kani_quick": ["k_c04_add_assign"],
         "kani_thorough": [],
         "bounded_native": [
+            {"unit": "b_c04_component_bounds", "functions": "Rasn::format_member_or_option -> constraints_and_type_name, format_range_annotations (generator/rasn/utils.rs), via Backend::generate_module",
+             "bound": "one component typed INTEGER or by a type reference, in SEQUENCE and CHOICE, range ends {-5,0,3,MIN} x {5,MAX}, with/without extension marker (exhaustive, 56 cases); checks the emitted value(..) annotation"},
             {"unit": "b_c04_value_references", "functions": "ToplevelDefinition::has_constraint_reference -> ASN1Type::contains_constraint_reference -> Constraint/ElementOrSetOperation/SubtypeElements::has_cross_reference, and ToplevelDefinition::link_constraint_reference (validator/linking)",
              "bound": "single value or range with each end literal / value reference / MIN-MAX, as INTEGER type assignment, inside SIZE(..) of OCTET STRING, as SEQUENCE component and in a union (exhaustive, 60 cases); run exactly as Validator::validate does"},
             {"unit": "b_c04_integer_set_expression", "functions": "TryFrom<&Constraint> for PerVisibleRangeConstraints -> fold_constraint_set, intersect_single_and_range, union_single_and_range, compare_optional_asn1values / union_optional_asn1values (per_visible.rs)",
